@@ -242,7 +242,8 @@ def gen_definition(rng, k):
 
 TEMPERATURE = ["from_celsius(20)", "20 °C", "from_fahrenheit(va + 60)", "celsius(300 K)", "300 K -> °C", "fahrenheit(290 K)",
                "(20 °C) -> °F", "from_celsius(va * 2) -> fahrenheit", "°C(273.15 K + vb K)", "(2 + 3) °C", "from_celsius(-5)",
-               "[20 °C, 30 °C]", "from_celsius(20) - from_celsius(10)", "(25 °C -> °F) + 1"]
+               "[20 °C, 30 °C]", "from_celsius(20) - from_celsius(10)", "(25 °C -> °F) + 1", "-(-20 °C)", "-(5 °C)", "-20 °C", "-(-(-2 °F))",
+               "-from_celsius(-20) + 1 K", "(-(-20 °C))^2", "-(20 °C -> °F)", "-(va °C)", "-(-va °F)", "0 K - (-20 °C)", "-(3 * 2 °C)", "[-(-20 °C), -5 °F]"]
 
 
 # ---------------------------------------------------------------------------------------------
@@ -506,6 +507,11 @@ def run_enum(sh, w, base, spec):
                 check_statement(sh, w, base, S, [], {"shape": f"{parent}[{pos}]<-{child}", "kind": "expr",
                                                      "sample": k % 997 == 0})
                 sh.count("enumerated (parent, position, child) combinations")
+    # the temperature sugar (`x °C` is from_celsius(x), a leading minus moves into the argument): every listed form
+    for j, S in enumerate(TEMPERATURE):
+        if j % spec["n"] == spec["idx"]:
+            check_statement(sh, w, base, S, [], {"shape": "temperature", "kind": "expr"})
+            sh.count("temperature sugar forms")
 
 
 def run_rand(sh, w, base, spec):
